@@ -102,8 +102,9 @@ def occurrences(rel, under_eager=False):
 
 def occurrences_outside_cached_materializations(rel):
     """Leaf name -> number of occurrences that a *second* execute()+pass may touch again: everything
-    except what lies below a Materialization that had to consume its input (its rows are cached on
-    the node after the first execute)."""
+    except what lies below a Materialization whose rows are held in a collection of their own (they
+    are cached on the node after the first execute; only a materialization of a bare leaf hands out
+    the leaf's payload object itself)."""
     import lsst.daf.relation as R
     from .. import interp
 
@@ -111,7 +112,9 @@ def occurrences_outside_cached_materializations(rel):
     if isinstance(rel, R.LeafRelation):
         out[rel.name] += 1
         return out
-    if isinstance(rel, R.Materialization) and consumes_at_execute(rel):
+    if isinstance(rel, R.Materialization) and result_kind(rel) == "seq":
+        # its rows were gathered (by itself, or by the sort / deduplication right below it) into a
+        # collection of their own and cached on the node by the first execute()
         return out
     for k in interp.children(rel):
         for name, n in occurrences_outside_cached_materializations(k).items():
